@@ -5,6 +5,7 @@ go 1.22
 require (
 	github.com/deckarep/golang-set/v2 v2.6.0
 	github.com/karagenc/socket.io-go v0.0.0
+	github.com/karagenc/yeast v0.1.1
 	github.com/quic-go/webtransport-go v0.8.0
 	github.com/sasha-s/go-deadlock v0.3.1
 	nhooyr.io/websocket v1.8.11
@@ -13,7 +14,6 @@ require (
 require (
 	github.com/fatih/color v1.17.0 // indirect
 	github.com/fatih/structs v1.1.0 // indirect
-	github.com/karagenc/yeast v0.1.1 // indirect
 	github.com/mattn/go-colorable v0.1.13 // indirect
 	github.com/mattn/go-isatty v0.0.20 // indirect
 	github.com/petermattis/goid v0.0.0-20240716203034-badd1c0974d6 // indirect
